@@ -45,6 +45,9 @@ Schemas == <<
      Tk("\"a\"", "out"), Tk(":", "out"), Tk("{", ""), Tk("\n", "out"), Tk("\"x\"", "out"), Tk(":", "out"), Tk("1", "il"), Tk("//", "il"), Tk("{", "il"), Tk("optional", "il"), Tk(":", "il"), Tk("true", "il"), Tk("}", ""),
      Tk("\n", "out"), Tk("}", "out"), Tk(",", "out"), Tk("\"b\"", "out"), Tk(":", "out"), Tk("[", "il"), Tk("//", "il"), Tk("{", "il"), Tk("maxItems", "il"), Tk(":", "il"), Tk("3", "il"), Tk("}", ""), Tk("\n", "out"),
      Tk("1", "out"), Tk("]", "out"), Tk("}", "out") >>,
+  \* an enum inside a rule set of an or rule (the rule name is looked at by a loader of its own)
+  << Tk("\"a\"", "il"), Tk("/*", "ml"), Tk("{", "ml"), Tk("or", "ml"), Tk(":", "ml"), Tk("[", "ml"), Tk("{", "ml"), Tk("enum", "ml"), Tk(":", "ml"), Tk("[", "ml"), Tk("\"a\"", "ml"), Tk(",", "ml"),
+     Tk("\"b\"", "ml"), Tk("]", "ml"), Tk("}", "ml"), Tk(",", "ml"), Tk("{", "ml"), Tk("\"type\"", "ml"), Tk(":", "ml"), Tk("\"integer\"", "ml"), Tk("}", "ml"), Tk("]", "ml"), Tk("}", "ml"), Tk("*/", "out") >>,
   \* a type shortcut after a non-empty array on the same line, annotated; and an empty inline annotation at a line end
   << Tk("[", ""), Tk("\n", "out"), Tk("[", "out"), Tk("1", "out"), Tk(",", "out"), Tk("2", "out"), Tk("]", "il"), Tk(",", "out"), Tk("@t", "il"), Tk("//", "il"), Tk("note", ""),
      Tk("\n", "out"), Tk("]", "out") >>,
@@ -53,7 +56,7 @@ Schemas == <<
   \* an enum RULE (rules/enum): its own scanner, its own comments
   << Tk("[", "en"), Tk("1", "en"), Tk(",", "en"), Tk("\"a\"", "en"), Tk(",", "en"), Tk("null", "en"), Tk(",", "en"), Tk("2.5", "en"), Tk("]", "en") >>
 >>
-IsEnum(i) == i = 12
+IsEnum(i) == i = 13
 Fillers(g) ==
   CASE g = "out" -> {" ", "\t", "\n", "\r\n", "\r", " # c\n", "#\n", " ### c ### ", "###\nc\n###\n", "  \n\n  "}
     [] g = "ml"  -> {" ", "\t", "\n", "\r\n", " \n\t"}
